@@ -69,6 +69,36 @@ def unknown_sites(cx, col, rule):
                      'atomic %s on a receiver that is none of the known location classes (%s)' % (s.op, s.sub), s.loc)
 
 
+def prepub_claims(cx, b):
+    """Writes that make a FRESH node (the result of Box::leak in this body) USED before this body publishes it with an exchange on
+    LIST_HEAD: `node.in_use.store(USED, _)` / `*node.in_use.get_mut() = USED`. Nobody else can see the node yet, so the write is part of
+    its construction (any ordering: the publishing exchange releases it). -> [(site, dominates every publication)]"""
+    sites = cx.summ.sites_by_body.get(b.key, ())
+    pubs = [o for o in sites if o.cls == 'list_head' and o.op in ('compare_exchange', 'compare_exchange_weak', 'store', 'swap')]
+    out = []
+    for o in sites:
+        if o.cls != 'in_use' or o.op not in ('store', 'get_mut'):
+            continue
+        fresh = o.root[0] in ('local', 'call') and any(x[0] == 'call' and U.callee_name(b.term(x[1])) == 'leak'
+                                                       for x in b.origins({'k': 'copy', 'place': {'local': o.root[1], 'proj': []}})) if o.root[0] == 'local' else \
+            (o.root[0] == 'call' and U.callee_name(b.term(o.root[1])) == 'leak')
+        if not fresh:
+            continue
+        if o.op == 'store':
+            val = U.int_of(b, o.arg(1))
+        else:
+            val = None
+            d = o.term['dest']['local']
+            for bb in range(b.n):
+                for st in b.stmts(bb):
+                    if st['k'] == 'assign' and st['dest']['local'] == d and any(e['k'] == 'deref' for e in st['dest']['proj']) and st['rv']['k'] == 'use':
+                        val = U.int_of(b, st['rv']['op'])
+        if val != cx.NODE_USED:
+            continue
+        out.append((o, bool(pubs) and all(b.dominates(o.bb, p_.bb) and o.bb != p_.bb for p_ in pubs)))
+    return out
+
+
 # --------------------------------------------------------------------------------------------
 # ORD
 
@@ -145,6 +175,8 @@ def roles(cx, s):
         elif s.op == 'swap':
             if U.int_of(b, s.arg(1)) == cx.NODE_COOLDOWN:
                 out.append(('inuse-cooldown', 0, 'Release', 'release ownership and the active_writers snapshot'))
+        elif s.op == 'store' and any(o is s or (o.bb == s.bb) for o, ok_ in prepub_claims(cx, b) if ok_):
+            pass  # construction of a node nobody else can see yet: released by the publishing exchange on LIST_HEAD
         elif s.op == 'store':
             out.append(('inuse-verdict', 0, 'Release', 'a plain store ends the owner\'s release sequence: whoever claims (or re-checks) the node next synchronises with the checker, which acquired from the owner'))
         elif s.op == 'load':
@@ -379,8 +411,9 @@ def rule_inuse_fsm(fx, col):
     anchors_consts(cx, col, 'INUSE-FSM')
     unknown_sites(cx, col, 'INUSE-FSM')
     edges = set()
+    prepub = set()
     for s in cx.sites:
-        if s.cls != 'in_use' or s.op not in U.WRITE_OPS:
+        if s.cls != 'in_use' or (s.op not in U.WRITE_OPS and s.op != 'get_mut'):
             continue
         b = s.body
         if s.op in ('compare_exchange', 'compare_exchange_weak'):
@@ -412,6 +445,11 @@ def rule_inuse_fsm(fx, col):
                 col.ok('INUSE-FSM', s.key() + '|->COOLDOWN', 'owner starts cooldown', s.loc)
             else:
                 col.fail('INUSE-FSM', s.key() + '|swap->%s' % to, 'ownership flag swapped to %s (only ->COOLDOWN is legal)' % to, s.loc)
+        elif s.op in ('store', 'get_mut') and any(o.bb == s.bb for o, _ in prepub_claims(cx, b)):
+            okp = all(ok_ for o, ok_ in prepub_claims(cx, b) if o.bb == s.bb)
+            prepub.add(b.key)
+            col.add('INUSE-FSM', s.key() + '|pre-publication claim', okp,
+                    'a fresh node (Box::leak in this body) is made USED by its creator; the write dominates the exchange on LIST_HEAD that publishes it: %s' % okp, s.loc)
         elif s.op == 'store':
             # the verdict of an exclusive check: UNUSED (released) or COOLDOWN (put back), only by the thread whose
             # compare_exchange COOLDOWN -> CHECKING succeeded, and UNUSED only on active_writers == 0 read after that success
@@ -439,6 +477,27 @@ def rule_inuse_fsm(fx, col):
                         'the value stored is UNUSED only on the active_writers == 0 outcome, COOLDOWN otherwise', s.loc)
         else:
             col.fail('INUSE-FSM', s.key(), 'ownership flag written by `%s`' % s.op, s.loc)
+    # the exclusive checking state is left again on every path: a node forgotten in it is never claimable again (and the next
+    # thread allocates a new one instead)
+    from .protect import _on_cas_success
+    for s in cx.sites:
+        if s.cls != 'in_use' or not s.op.startswith('compare_exchange'):
+            continue
+        b = s.body
+        if not (U.int_of(b, s.arg(1)) == cx.NODE_COOLDOWN and U.int_of(b, s.arg(2)) not in (None, cx.NODE_UNUSED, cx.NODE_USED, cx.NODE_COOLDOWN)):
+            continue
+        S = {x for x in b.reachable(unwind=False) if x != s.bb and _on_cas_success(b, s, x)}
+        stores = {o.bb for o in cx.summ.sites_by_body.get(b.key, ()) if o.cls == 'in_use' and o.op in ('store', 'swap') and o.bb != s.bb}
+        entries = [x for x in S if any(p_ not in S for p_ in b.preds(False)[x])]
+        leak = None
+        for e_ in entries:
+            # (constants assigned on the way are followed: the success may be carried in a flag tested after a join)
+            for x in sorted(U.const_path_reach(b, e_, stores)):
+                if b.term(x)['k'] == 'return':
+                    leak = x
+        col.add('INUSE-FSM', s.key() + '|checking state left on every path', bool(S) and leak is None,
+                'every path from the successful COOLDOWN->CHECKING exchange passes a verdict store to in_use before it leaves the exclusive region'
+                + ('' if leak is None else ' — NOT the one through %s: the node stays in the checking state for ever' % b.loc(leak)), s.loc)
     # initialiser
     for b in fx.lib.bodies:
         for bb in range(b.n):
@@ -450,8 +509,11 @@ def rule_inuse_fsm(fx, col):
                     if d and d[0] == 'call' and U.callee_name(d[2]) == 'new':
                         v = U.int_of(b, d[2]['args'][0])
                     edges.add('init')
-                    col.add('INUSE-FSM', '%s|init' % b.fname, v == cx.NODE_USED,
-                            'a fresh node is born USED (owned by its creator); found %s' % v, b.loc(bb, i))
+                    # born USED, or born blank and claimed by every body that allocates one before it publishes it
+                    allocs = [x for x in fx.lib.bodies if any(U.callee_name(t) == 'leak' and 'debt::list::Node' in (t['callee'].get('pretty') or '') for _, t in x.calls(include_cleanup=False))]
+                    claimed = v == cx.NODE_UNUSED and bool(allocs) and all(any(ok_ for _, ok_ in prepub_claims(cx, x)) for x in allocs)
+                    col.add('INUSE-FSM', '%s|init' % b.fname, v == cx.NODE_USED or claimed,
+                            'a fresh node is born USED (owned by its creator); found %s%s' % (v, ' and every allocating body claims it before publication' if claimed else ''), b.loc(bb, i))
     for e in ('init', 'claim', 'cooldown', 'check', 'release'):
         col.floor('INUSE-FSM', 'edge ' + e, 1 if e in edges else 0, 1)
 
@@ -484,6 +546,9 @@ def _const_values(b, op, depth=0):
 def _unused_only_on_zero(cx, b, s, aw):
     """the operand stored is assigned UNUSED only in blocks control dependent on `active_writers.load() == 0`"""
     op = s.arg(1)
+    if U.int_of(b, op) == cx.NODE_UNUSED and (op['k'] == 'const' or b.const_of(op) is not None):
+        # one store per verdict: the store of the constant UNUSED itself sits on the `== 0` outcome
+        return ('active_writers', 0) in _eq_guards(cx, b, s.bb)
     if op['k'] not in ('copy', 'move') or op['place']['proj']:
         return False
     l = op['place']['local']
@@ -623,6 +688,14 @@ def rule_tag_table(fx, col):
                 diverges = not any(b.term(x)['k'] == 'return' for x in b.reach_from(oth, unwind=False, avoid=set(tb for _, tb in t['targets']) - {oth}))
                 col.add('TAG-TABLE', '%s|tag match' % b.fname, vals == sorted({I & M, R, G}),
                         'match on control & TAG_MASK handles %s, table is %s' % (vals, sorted({I & M, R, G})), b.loc(bb))
+            elif d and d[0] == 'rv' and d[3]['k'] == 'binop' and d[3]['op'] in ('Eq', 'Ne'):
+                # the comparison form: `control & TAG_MASK == SOME_TAG`
+                for x, y in ((d[3]['l'], d[3]['r']), (d[3]['r'], d[3]['l'])):
+                    dx = U.def_rvalue(b, x)
+                    c = U.int_of(b, y)
+                    if c is not None and dx and dx[0] == 'rv' and dx[3]['k'] == 'binop' and dx[3]['op'] == 'BitAnd' and U.int_of(b, dx[3]['r']) == M:
+                        n_c += 1
+                        col.add('TAG-TABLE', '%s|tag compared' % b.fname, c in (I & M, R, G), 'control & TAG_MASK is compared with %s, table is %s' % (c, sorted({I & M, R, G})), b.loc(bb))
     col.floor('TAG-TABLE', 'tag consumers', n_c, 1)
 
 
